@@ -203,6 +203,224 @@ theorem linkAttr_exists (net : Net) (vs : List Rat) (h : net.eattr = some vs) :
   · exact ⟨_, rfl⟩
   · rw [h]; exact ⟨_, rfl⟩
 
+/-! ### an arbitrary sparse matrix that stores each cell at most once -/
+
+def coordOf (e : Entry) : Nat × Nat := (e.1, e.2.1)
+
+/-- the relation a 0/1 sparse matrix describes -/
+def relOf (s : Sparse) (i j : Nat) : Bool := valAt s.ents i j != 0
+
+theorem valAt_not_stored (es : List Entry) (i j : Nat) (h : (i, j) ∉ es.map coordOf) :
+    valAt es i j = 0 := by
+  induction es with
+  | nil => rfl
+  | cons e es ih =>
+    rw [valAt_cons]
+    simp only [List.map_cons, List.mem_cons, not_or] at h
+    have h1 : ¬ (e.1 = i ∧ e.2.1 = j) := fun ⟨a, b⟩ => h.1 (by simp [coordOf, a, b])
+    simp [h1, ih h.2]
+
+theorem valAt_stored (es : List Entry) (hnd : (es.map coordOf).Nodup) (e : Entry) (he : e ∈ es) :
+    valAt es e.1 e.2.1 = e.2.2 := by
+  induction es with
+  | nil => cases he
+  | cons x es ih =>
+    rw [List.map_cons, List.nodup_cons] at hnd
+    rw [valAt_cons]
+    rcases List.mem_cons.1 he with rfl | he'
+    · have : valAt es e.1 e.2.1 = 0 := valAt_not_stored es _ _ hnd.1
+      simp [this]
+    · have hne : ¬ (x.1 = e.1 ∧ x.2.1 = e.2.1) := by
+        rintro ⟨a, b⟩
+        apply hnd.1
+        have : coordOf x = coordOf e := by simp [coordOf, a, b]
+        rw [this]
+        exact List.mem_map_of_mem he'
+      simp [hne, ih hnd.2 he']
+
+/-- a square sparse matrix that stores each cell at most once, with values 0 or 1
+(explicitly stored zeros allowed, any storage order: csc, csr, coo, lil, dok) -/
+structure SimpleSparse (N : Nat) (s : Sparse) : Prop where
+  rows : s.rows = N
+  cols : s.cols = N
+  nodup : (s.ents.map coordOf).Nodup
+  range : ∀ e ∈ s.ents, e.1 < N ∧ e.2.1 < N
+  vals : ∀ e ∈ s.ents, e.2.2 = 0 ∨ e.2.2 = 1
+
+theorem nzCoords_eq (s : Sparse) :
+    nzCoords s = (s.ents.filter fun e => e.2.2 != 0).map coordOf := rfl
+
+theorem mem_nzCoords_iff {N : Nat} {s : Sparse} (h : SimpleSparse N s) (i j : Nat) :
+    (i, j) ∈ nzCoords s ↔ relOf s i j = true := by
+  rw [nzCoords_eq, List.mem_map]
+  unfold relOf
+  constructor
+  · rintro ⟨e, he, hc⟩
+    rw [List.mem_filter] at he
+    have h1 := valAt_stored s.ents h.nodup e he.1
+    have hi : e.1 = i := by have := congrArg Prod.fst hc; simpa [coordOf] using this
+    have hj : e.2.1 = j := by have := congrArg Prod.snd hc; simpa [coordOf] using this
+    rw [hi, hj] at h1
+    rw [h1]; exact he.2
+  · intro hv
+    by_cases hm : (i, j) ∈ s.ents.map coordOf
+    · rw [List.mem_map] at hm
+      obtain ⟨e, he, hc⟩ := hm
+      have h1 := valAt_stored s.ents h.nodup e he
+      have hi : e.1 = i := by have := congrArg Prod.fst hc; simpa [coordOf] using this
+      have hj : e.2.1 = j := by have := congrArg Prod.snd hc; simpa [coordOf] using this
+      rw [hi, hj] at h1
+      refine ⟨e, ?_, hc⟩
+      rw [List.mem_filter]
+      exact ⟨he, by rw [← h1]; exact hv⟩
+    · rw [valAt_not_stored s.ents i j hm] at hv
+      simp at hv
+
+theorem valAt_simpleSparse {N : Nat} {s : Sparse} (h : SimpleSparse N s) (i j : Nat) :
+    valAt s.ents i j = ind (relOf s) i j := by
+  unfold ind relOf
+  by_cases hm : (i, j) ∈ s.ents.map coordOf
+  · rw [List.mem_map] at hm
+    obtain ⟨e, he, hc⟩ := hm
+    have h1 := valAt_stored s.ents h.nodup e he
+    have hi : e.1 = i := by have := congrArg Prod.fst hc; simpa [coordOf] using this
+    have hj : e.2.1 = j := by have := congrArg Prod.snd hc; simpa [coordOf] using this
+    rw [hi, hj] at h1
+    rw [h1]
+    rcases h.vals e he with h0 | h0 <;> simp [h0]
+  · rw [valAt_not_stored s.ents i j hm]; simp
+
+theorem nodup_nzCoords {N : Nat} {s : Sparse} (h : SimpleSparse N s) : (nzCoords s).Nodup := by
+  rw [nzCoords_eq]
+  exact h.nodup.sublist ((List.filter_sublist).map coordOf)
+
+theorem range_nzCoords {N : Nat} {s : Sparse} (h : SimpleSparse N s) :
+    ∀ p ∈ nzCoords s, p.1 < N ∧ p.2 < N := by
+  intro p hp
+  rw [nzCoords_eq, List.mem_map] at hp
+  obtain ⟨e, he, rfl⟩ := hp
+  exact h.range e (List.mem_filter.1 he).1
+
+/-- **the adjacency setter on any such matrix** -/
+theorem setAdjacency_simpleSparse (net : Net) (N : Nat) (hN : 2 ≤ N) (s : Sparse)
+    (h : SimpleSparse N s) :
+    setAdjacency net s = .ok { net with
+      N := N
+      spA := table N (ind (relOf s))
+      density := linkDensity (cells N (relOf s)).length N
+      nLinks := if net.directed then (cells N (relOf s)).length
+                else (cells N (relOf s)).length / 2
+      graph := graphEdges net.directed N (cells N (relOf s))
+      eattr := none
+      gvw := none } := by
+  have hrel : ∀ i j, i < N → j < N → memRel (nzCoords s) i j = relOf s i j := by
+    intro i j _ _
+    unfold memRel
+    rw [Bool.eq_iff_iff, decide_eq_true_eq]
+    exact mem_nzCoords_iff h i j
+  have hperm := cells_memRel_perm N (nzCoords s) (nodup_nzCoords h) (range_nzCoords h)
+  rw [cells_congr hrel] at hperm
+  have hlen : (nzCoords s).length = (cells N (relOf s)).length := hperm.length_eq.symm
+  have hg : graphEdges net.directed N (nzCoords s)
+      = graphEdges net.directed N (cells N (relOf s)) :=
+    graphEdges_congr_mem _ _ _ _ fun p => (hperm.mem_iff).symm
+  obtain ⟨r, c, es⟩ := s
+  have hr : r = N := h.rows
+  have hc : c = N := h.cols
+  subst hr hc
+  unfold setAdjacency
+  have h0 : ¬ (c == 0 || c == 1) = true := by simp; omega
+  simp only [bne_self_eq_false, Bool.false_eq_true, if_false, h0, hlen, hg]
+  congr 2
+  apply table_congr (f := fun i j => valAt es i j)
+  intro i j _ _
+  exact valAt_simpleSparse h i j
+
+theorem init_simpleSparse (d : Bool) (N : Nat) (hN : 2 ≤ N) (s : Sparse) (h : SimpleSparse N s)
+    (w : List Rat) (hw : w.length = N) :
+    init d (.sparse s) (some w) = .ok (ofGraph d N (relOf s) w none) := by
+  unfold init construct
+  simp only [setAdjacency_simpleSparse _ N hN s h]
+  simp only [bind, Except.bind, Net.blank]
+  rw [setWeights_some _ _ (by simpa using hw)]
+  rfl
+
+theorem map_coordOf_entsOf (l : List (Nat × Nat)) (c v) :
+    (entsOf l c v).map coordOf = l.filter fun p => c p.1 p.2 := by
+  induction l with
+  | nil => rfl
+  | cons p l ih =>
+    rw [entsOf_cons, List.filter_cons]
+    split <;> simp_all [coordOf]
+
+theorem mem_entsOf {l : List (Nat × Nat)} {c v} {e : Entry} (h : e ∈ entsOf l c v) :
+    (e.1, e.2.1) ∈ l ∧ e.2.2 = v e.1 e.2.1 := by
+  induction l with
+  | nil => simp [entsOf] at h
+  | cons p l ih =>
+    rw [entsOf_cons] at h
+    split at h
+    · rcases List.mem_cons.1 h with rfl | h
+      · simp
+      · have := ih h; exact ⟨List.mem_cons_of_mem _ this.1, this.2⟩
+    · have := ih h; exact ⟨List.mem_cons_of_mem _ this.1, this.2⟩
+
+/-- the sparse matrix of a dense 0/1 matrix is such a matrix -/
+theorem simpleSparse_dense (N : Nat) (a : Nat → Nat → Bool) :
+    SimpleSparse N (ofDenseMat N N (ind a)) := by
+  rw [ofDenseMat_eq]
+  refine ⟨rfl, rfl, ?_, ?_, ?_⟩
+  · show ((entsOf (pairs N N) (fun i j => ind a i j != 0) (ind a)).map coordOf).Nodup
+    rw [map_coordOf_entsOf]
+    exact (nodup_pairs N N).filter _
+  · intro e he
+    have he' : e ∈ entsOf (pairs N N) (fun i j => ind a i j != 0) (ind a) := he
+    have := (mem_entsOf he').1
+    rw [mem_pairs] at this
+    exact this
+  · intro e he
+    have he' : e ∈ entsOf (pairs N N) (fun i j => ind a i j != 0) (ind a) := he
+    have := (mem_entsOf he').2
+    rw [this]
+    unfold ind
+    split <;> simp
+
+/-- the COO matrix of a duplicate-free in-range edge list is such a matrix -/
+theorem simpleSparse_cooOnes (N : Nat) (E : List (Nat × Nat)) (hnd : E.Nodup)
+    (hr : ∀ p ∈ E, p.1 < N ∧ p.2 < N) : SimpleSparse N (cooOnes N E) := by
+  refine ⟨rfl, rfl, ?_, ?_, ?_⟩
+  · show ((E.map fun p => ((p.1, p.2, 1) : Entry)).map coordOf).Nodup
+    rw [List.map_map]
+    have : (coordOf ∘ fun p : Nat × Nat => ((p.1, p.2, 1) : Entry)) = id := by
+      funext p; rfl
+    rw [this, List.map_id]
+    exact hnd
+  · intro e he
+    simp only [cooOnes, List.mem_map] at he
+    obtain ⟨p, hp, rfl⟩ := he
+    exact hr p hp
+  · intro e he
+    simp only [cooOnes, List.mem_map] at he
+    obtain ⟨p, _, rfl⟩ := he
+    right; rfl
+
+theorem relOf_dense (N : Nat) (a : Nat → Nat → Bool) (i j : Nat) (hi : i < N) (hj : j < N) :
+    relOf (ofDenseMat N N (ind a)) i j = a i j := by
+  unfold relOf
+  rw [ofDenseMat_eq]
+  simp only
+  rw [valAt_entsOf _ (nodup_pairs N N)]
+  have : (i, j) ∈ pairs N N := mem_pairs.2 ⟨hi, hj⟩
+  unfold ind
+  cases a i j <;> simp [this]
+
+theorem setAdjacency_form_sparse {d N g ea vw w} (h : Good d N g ea vw w) (s : Sparse)
+    (hs : SimpleSparse N s) (hsim : Simple d N (relOf s)) :
+    setAdjacency (form d N g ea vw w) s
+      = .ok (form d N (graphEdges d N (cells N (relOf s))) none none w) := by
+  rw [setAdjacency_simpleSparse _ N h.size s hs, ← ofGraph_eq_form d N (relOf s) hsim w none]
+  rfl
+
 /-! ### abstract state of a history -/
 
 /-- what a history is specified on: the relation, the node weights, the link
@@ -228,9 +446,6 @@ structure Reprs (net : Net) (σ : Abs) : Prop where
   gvw : net.gvw = σ.gvw
   attr : AttrIs net σ.V
 
-/-- the relation a 0/1 sparse matrix describes -/
-def relOf (s : Sparse) (i j : Nat) : Bool := valAt s.ents i j != 0
-
 /-- specification of one statement -/
 def specStep (N : Nat) (σ : Abs) : Op → Abs
   | .setW w => { σ with w := weightsOf N w }
@@ -246,22 +461,13 @@ def spec (N : Nat) (σ : Abs) (ops : List Op) : Abs := ops.foldl (specStep N) σ
 
 /-- the statements the property speaks about: a weight vector has one entry per
 node, an attribute matrix is symmetric when the network is undirected, a new
-adjacency matrix is the 0/1 matrix of a simple graph on the same nodes -/
+adjacency matrix is a 0/1 matrix (dense, or sparse in any storage) of a simple
+graph on the same nodes -/
 def ValidOp (d : Bool) (N : Nat) : Op → Prop
   | .setW (some w) => w.length = N
   | .setAttr v => d = false → ∀ i j, v j i = v i j
-  | .setAdj s => ∃ a, Simple d N a ∧ s = ofDenseMat N N (ind a)
+  | .setAdj s => SimpleSparse N s ∧ Simple d N (relOf s)
   | _ => True
-
-theorem relOf_dense (N : Nat) (a : Nat → Nat → Bool) (i j : Nat) (hi : i < N) (hj : j < N) :
-    relOf (ofDenseMat N N (ind a)) i j = a i j := by
-  unfold relOf
-  rw [ofDenseMat_eq]
-  simp only
-  rw [valAt_entsOf _ (nodup_pairs N N)]
-  have : (i, j) ∈ pairs N N := mem_pairs.2 ⟨hi, hj⟩
-  unfold ind
-  cases a i j <;> simp [this]
 
 theorem attrIs_congr_w {d N g ea vw w w'} (V) (h : AttrIs (form d N g ea vw w) V) (vw') :
     AttrIs (form d N g ea vw' w') V := h
@@ -298,16 +504,14 @@ theorem step_reprs (store : IGraph → IGraph) (hstore : ∀ g, store g = g) (ne
     exact coherent_form ⟨hg.size, hg.simple, hg.noloop, hg.range, hg.wlen,
       (fun _ h => by cases h), hg.vlen⟩
   | setAdj s =>
-    obtain ⟨a, hs, rfl⟩ := hv
-    have hs' : Simple d N a := hs
-    refine ⟨_, setAdjacency_form hg a hs', ⟨coherent_form
-      (good_graphEdges d N hg.size a w hg.wlen none (fun _ h => by cases h)), ?_, hw, rfl, rfl⟩,
-      rfl, rfl⟩
+    obtain ⟨hss, hsim⟩ := hv
+    have hss' : SimpleSparse N s := hss
+    have hsim' : Simple d N (relOf s) := hsim
+    refine ⟨_, setAdjacency_form_sparse hg s hss' hsim', ⟨coherent_form
+      (good_graphEdges d N hg.size (relOf s) w hg.wlen none (fun _ h => by cases h)), ?_, hw, rfl,
+      rfl⟩, rfl, rfl⟩
     intro i j hi hj
-    have hi' : i < N := hi
-    have hj' : j < N := hj
-    show rel d (graphEdges d N (cells N a)) i j = relOf (ofDenseMat N N (ind a)) i j
-    rw [rel_graphEdges d N a hs' i j hi' hj', relOf_dense N a i j hi' hj']
+    exact rel_graphEdges d N (relOf s) hsim' i j hi hj
   | save =>
     refine ⟨_, rfl, ⟨?_, hadj, hw, ?_, hattr⟩, rfl, rfl⟩
     · rw [save_form]
@@ -467,145 +671,6 @@ theorem Coherent.reprs {net : Net} (h : Coherent net) : ∃ σ : Abs, Reprs net 
     · rfl
     · rename_i hr
       exact linkAttr_zero net f hf i j (by simpa using hr)
-
-/-! ### an arbitrary sparse matrix that stores each cell at most once -/
-
-def coordOf (e : Entry) : Nat × Nat := (e.1, e.2.1)
-
-theorem valAt_not_stored (es : List Entry) (i j : Nat) (h : (i, j) ∉ es.map coordOf) :
-    valAt es i j = 0 := by
-  induction es with
-  | nil => rfl
-  | cons e es ih =>
-    rw [valAt_cons]
-    simp only [List.map_cons, List.mem_cons, not_or] at h
-    have h1 : ¬ (e.1 = i ∧ e.2.1 = j) := fun ⟨a, b⟩ => h.1 (by simp [coordOf, a, b])
-    simp [h1, ih h.2]
-
-theorem valAt_stored (es : List Entry) (hnd : (es.map coordOf).Nodup) (e : Entry) (he : e ∈ es) :
-    valAt es e.1 e.2.1 = e.2.2 := by
-  induction es with
-  | nil => cases he
-  | cons x es ih =>
-    rw [List.map_cons, List.nodup_cons] at hnd
-    rw [valAt_cons]
-    rcases List.mem_cons.1 he with rfl | he'
-    · have : valAt es e.1 e.2.1 = 0 := valAt_not_stored es _ _ hnd.1
-      simp [this]
-    · have hne : ¬ (x.1 = e.1 ∧ x.2.1 = e.2.1) := by
-        rintro ⟨a, b⟩
-        apply hnd.1
-        have : coordOf x = coordOf e := by simp [coordOf, a, b]
-        rw [this]
-        exact List.mem_map_of_mem he'
-      simp [hne, ih hnd.2 he']
-
-/-- a square sparse matrix that stores each cell at most once, with values 0 or 1
-(explicitly stored zeros allowed, any storage order: csc, csr, coo, lil, dok) -/
-structure SimpleSparse (N : Nat) (s : Sparse) : Prop where
-  rows : s.rows = N
-  cols : s.cols = N
-  nodup : (s.ents.map coordOf).Nodup
-  range : ∀ e ∈ s.ents, e.1 < N ∧ e.2.1 < N
-  vals : ∀ e ∈ s.ents, e.2.2 = 0 ∨ e.2.2 = 1
-
-theorem nzCoords_eq (s : Sparse) :
-    nzCoords s = (s.ents.filter fun e => e.2.2 != 0).map coordOf := rfl
-
-theorem mem_nzCoords_iff {N : Nat} {s : Sparse} (h : SimpleSparse N s) (i j : Nat) :
-    (i, j) ∈ nzCoords s ↔ relOf s i j = true := by
-  rw [nzCoords_eq, List.mem_map]
-  unfold relOf
-  constructor
-  · rintro ⟨e, he, hc⟩
-    rw [List.mem_filter] at he
-    have h1 := valAt_stored s.ents h.nodup e he.1
-    have hi : e.1 = i := by have := congrArg Prod.fst hc; simpa [coordOf] using this
-    have hj : e.2.1 = j := by have := congrArg Prod.snd hc; simpa [coordOf] using this
-    rw [hi, hj] at h1
-    rw [h1]; exact he.2
-  · intro hv
-    by_cases hm : (i, j) ∈ s.ents.map coordOf
-    · rw [List.mem_map] at hm
-      obtain ⟨e, he, hc⟩ := hm
-      have h1 := valAt_stored s.ents h.nodup e he
-      have hi : e.1 = i := by have := congrArg Prod.fst hc; simpa [coordOf] using this
-      have hj : e.2.1 = j := by have := congrArg Prod.snd hc; simpa [coordOf] using this
-      rw [hi, hj] at h1
-      refine ⟨e, ?_, hc⟩
-      rw [List.mem_filter]
-      exact ⟨he, by rw [← h1]; exact hv⟩
-    · rw [valAt_not_stored s.ents i j hm] at hv
-      simp at hv
-
-theorem valAt_simpleSparse {N : Nat} {s : Sparse} (h : SimpleSparse N s) (i j : Nat) :
-    valAt s.ents i j = ind (relOf s) i j := by
-  unfold ind relOf
-  by_cases hm : (i, j) ∈ s.ents.map coordOf
-  · rw [List.mem_map] at hm
-    obtain ⟨e, he, hc⟩ := hm
-    have h1 := valAt_stored s.ents h.nodup e he
-    have hi : e.1 = i := by have := congrArg Prod.fst hc; simpa [coordOf] using this
-    have hj : e.2.1 = j := by have := congrArg Prod.snd hc; simpa [coordOf] using this
-    rw [hi, hj] at h1
-    rw [h1]
-    rcases h.vals e he with h0 | h0 <;> simp [h0]
-  · rw [valAt_not_stored s.ents i j hm]; simp
-
-theorem nodup_nzCoords {N : Nat} {s : Sparse} (h : SimpleSparse N s) : (nzCoords s).Nodup := by
-  rw [nzCoords_eq]
-  exact h.nodup.sublist ((List.filter_sublist).map coordOf)
-
-theorem range_nzCoords {N : Nat} {s : Sparse} (h : SimpleSparse N s) :
-    ∀ p ∈ nzCoords s, p.1 < N ∧ p.2 < N := by
-  intro p hp
-  rw [nzCoords_eq, List.mem_map] at hp
-  obtain ⟨e, he, rfl⟩ := hp
-  exact h.range e (List.mem_filter.1 he).1
-
-/-- **the adjacency setter on any such matrix** -/
-theorem setAdjacency_simpleSparse (net : Net) (N : Nat) (hN : 2 ≤ N) (s : Sparse)
-    (h : SimpleSparse N s) :
-    setAdjacency net s = .ok { net with
-      N := N
-      spA := table N (ind (relOf s))
-      density := linkDensity (cells N (relOf s)).length N
-      nLinks := if net.directed then (cells N (relOf s)).length
-                else (cells N (relOf s)).length / 2
-      graph := graphEdges net.directed N (cells N (relOf s))
-      eattr := none
-      gvw := none } := by
-  have hrel : ∀ i j, i < N → j < N → memRel (nzCoords s) i j = relOf s i j := by
-    intro i j _ _
-    unfold memRel
-    rw [Bool.eq_iff_iff, decide_eq_true_eq]
-    exact mem_nzCoords_iff h i j
-  have hperm := cells_memRel_perm N (nzCoords s) (nodup_nzCoords h) (range_nzCoords h)
-  rw [cells_congr hrel] at hperm
-  have hlen : (nzCoords s).length = (cells N (relOf s)).length := hperm.length_eq.symm
-  have hg : graphEdges net.directed N (nzCoords s)
-      = graphEdges net.directed N (cells N (relOf s)) :=
-    graphEdges_congr_mem _ _ _ _ fun p => (hperm.mem_iff).symm
-  obtain ⟨r, c, es⟩ := s
-  have hr : r = N := h.rows
-  have hc : c = N := h.cols
-  subst hr hc
-  unfold setAdjacency
-  have h0 : ¬ (c == 0 || c == 1) = true := by simp; omega
-  simp only [bne_self_eq_false, Bool.false_eq_true, if_false, h0, hlen, hg]
-  congr 2
-  apply table_congr (f := fun i j => valAt es i j)
-  intro i j _ _
-  exact valAt_simpleSparse h i j
-
-theorem init_simpleSparse (d : Bool) (N : Nat) (hN : 2 ≤ N) (s : Sparse) (h : SimpleSparse N s)
-    (w : List Rat) (hw : w.length = N) :
-    init d (.sparse s) (some w) = .ok (ofGraph d N (relOf s) w none) := by
-  unfold init construct
-  simp only [setAdjacency_simpleSparse _ N hN s h]
-  simp only [bind, Except.bind, Net.blank]
-  rw [setWeights_some _ _ (by simpa using hw)]
-  rfl
 
 /-! ### edge list without `n_nodes` -/
 
